@@ -8,6 +8,7 @@ import (
 
 	"github.com/fxamacker/cbor/v2"
 	"github.com/taurusgroup/multi-party-sig/internal/round"
+	"github.com/taurusgroup/multi-party-sig/internal/safecbor"
 )
 
 // TwoPartyHandler represents a restriction of the Handler for 2 party protocols.
@@ -102,7 +103,7 @@ func (h *TwoPartyHandler) canAdvance() bool {
 
 func extractRoundMessage(r round.Session, msg *Message) (round.Message, error) {
 	content := r.MessageContent()
-	if err := cbor.Unmarshal(msg.Data, content); err != nil {
+	if err := safecbor.Unmarshal(msg.Data, content); err != nil {
 		return round.Message{}, fmt.Errorf("failed to unmarshal message: %w", err)
 	}
 	roundMsg := round.Message{
